@@ -14,6 +14,7 @@ func init() {
 			"(C09-orient) header and row builders of the csv and md tables order the columns alike in both orientations and are called with the same flag; md sub-sections pair rows, flag and header; exposure entries are oriented by direction. " +
 			"(C09-sel) a function that renders a label selector either runs the full selector writer on the path to its return or chooses an abbreviated text only where the path condition pins both matchLabels and matchExpressions. " +
 			"(C09-str) String and ProtocolsAndPortsMap of a connection set build their result in loops over the set's own protocol map; (C09-str-lossless) the numbered ports of a port set are rendered by the interval library's String() of the whole set. " +
+			"(C09-readonly) rendering leaves the report as it was: a function of the formatting layer that rewrites the elements of a slice parameter (in-place filter, element store, copy) is only ever handed a slice built for the occasion, never a field or the result of an accessor that hands out a field - a report can be rendered more than once. " +
 			"NOT decided: that the text of a row parses back to the same value (quoting, separators); encoding/json and encoding/csv are trusted."
 		rules.ProjectionSharing(p, r, "C09-proj")
 		rules.NoDropExits(p, r, "C09-nodrop")
@@ -22,6 +23,7 @@ func init() {
 		rules.OrientationParity(p, r, "C09-orient")
 		rules.SelectorRenderingLossless(p, r, "C09-sel")
 		rules.SelectorTextSingleAssignment(p, r, "C09-sel-var")
+		rules.FormattersKeepTheirInput(p, r, "C09-readonly")
 		rules.RenderersRangeOverOwnMap(p, r, "C09-str")
 		rules.PortSetTextLossless(p, r, "C09-str-lossless")
 		rules.CLIFileWriter(p, r, "C09-file")
